@@ -56,6 +56,19 @@ func lenEstablished(x ssa.Value, c int64, at *ssa.BasicBlock) bool {
 				return true
 			}
 		}
+		// x = a[:len(a)-k]  =>  len(x) = len(a) - k
+		if xs, ok := x.(*ssa.Slice); ok && xs.Low == nil && xs.High != nil {
+			if bo, ok := xs.High.(*ssa.BinOp); ok && bo.Op == token.SUB {
+				if k, isC := constInt(bo.Y); isC {
+					if lc, ok := bo.X.(*ssa.Call); ok {
+						if bb, ok := lc.Call.Value.(*ssa.Builtin); ok && bb.Name() == "len" && lc.Call.Args[0] == xs.X && (a == xs.X) {
+							off = -k
+							return true
+						}
+					}
+				}
+			}
+		}
 		return false
 	}
 	fn := at.Parent()
@@ -133,7 +146,9 @@ func ruleIndex0(scopeFiles ...string) func(c *Ctx) {
 		c.S.Rule("R-C13-index0", textIndex0, 3)
 		inScope := fileScope(c, scopeFiles...)
 		for _, fn := range c.SrcFuncs() {
-			if !inScope(fnName(fn)) {
+			// the wire-facing files, plus every function that decodes a binary payload handed in by a client
+			// (it calls encoding/binary: RESTORE)
+			if !inScope(fnName(fn)) && !decodesBinary(fn) {
 				continue
 			}
 			n := 0
@@ -319,6 +334,169 @@ func appendedFromGuarded(x ssa.Value, at *ssa.BasicBlock) bool {
 		}
 		if okAll && lenEstablished(y, 0, at) {
 			return true
+		}
+	}
+	return false
+}
+
+const textValidateAll = "R-C13-validate-all: a loop that validates the client-supplied fields of the elements of a slice (a range test on a field of the loop element whose failing side leaves the function with an error) validates every element: the test dominates every back edge of its loop — no `continue` for some kind of element (e.g. read-only sub-operations) jumps over it, because the unchecked elements are used by the same code later"
+
+func ruleValidateAll(c *Ctx) {
+	c.S.Rule("R-C13-validate-all", textValidateAll, 1)
+	n := 0
+	for _, fn := range c.SrcFuncs() {
+		if len(fn.Blocks) == 0 {
+			continue
+		}
+		k := 0
+		for _, g := range fn.Blocks {
+			ifi, ok := g.Instrs[len(g.Instrs)-1].(*ssa.If)
+			if !ok || !blockInCycle(g) {
+				continue
+			}
+			// condition: comparison(s) of a field of a loop element with a constant / another field
+			fld := guardedElementField(ifi.Cond, 0)
+			if fld == "" {
+				continue
+			}
+			// one side leaves the function (error return) without coming back to the loop
+			exits := false
+			for _, s := range g.Succs {
+				if !plainReachAvoid(s, g, nil) && leadsToErrorReturn(c, s) {
+					exits = true
+				}
+			}
+			if !exits {
+				continue
+			}
+			// loop header: the block of the same cycle that dominates g and has a predecessor inside the cycle
+			var header *ssa.BasicBlock
+			for _, h := range fn.Blocks {
+				if !(h.Dominates(g) || h == g) || !plainReachAvoid(g, h, nil) {
+					continue
+				}
+				for _, p := range h.Preds {
+					// a natural loop header has a back edge: a predecessor it dominates
+					if (p == h || h.Dominates(p)) && (header == nil || header.Dominates(h)) {
+						header = h
+					}
+				}
+			}
+			if header == nil {
+				continue
+			}
+			k++
+			n++
+			key := fmt.Sprintf("%s:validation-of-%s#%d", fnName(fn), fld, k)
+			skipped := false
+			for _, p := range header.Preds {
+				if !(p == header || header.Dominates(p)) {
+					continue // entry edge
+				}
+				if !(g == p || g.Dominates(p)) {
+					skipped = true
+				}
+			}
+			if skipped {
+				c.S.Bad("R-C13-validate-all", key, c.Pos(c.InstrPos(ifi)), fmt.Sprintf("%s validates %s of the elements it loops over, but some path through the loop body reaches the next iteration without passing the test: elements of that kind are used unchecked (a negative offset indexes in front of the array)", fnName(fn), fld))
+			} else {
+				c.S.OK("R-C13-validate-all", key, c.Pos(c.InstrPos(ifi)), "the range test lies on every path through the loop body")
+			}
+		}
+	}
+	if n == 0 {
+		c.S.Undecided("R-C13-validate-all", "instances", "-", "no validation loop over client-supplied elements found (BITFIELD's offset check was expected)")
+	}
+}
+
+// guardedElementField: the condition compares (possibly in an || / && chain already split into blocks) a field of a
+// struct reached through a loop element with a constant or another such field; returns the field name.
+func guardedElementField(v ssa.Value, d int) string {
+	if d > 4 {
+		return ""
+	}
+	bo, ok := v.(*ssa.BinOp)
+	if !ok {
+		return ""
+	}
+	switch bo.Op {
+	case token.LSS, token.LEQ, token.GTR, token.GEQ:
+	default:
+		return ""
+	}
+	isElemField := func(x ssa.Value) string {
+		for i := 0; i < 3; i++ {
+			if cv, ok := x.(*ssa.Convert); ok {
+				x = cv.X
+				continue
+			}
+			break
+		}
+		u, ok := x.(*ssa.UnOp)
+		if !ok {
+			return ""
+		}
+		fa, ok := u.X.(*ssa.FieldAddr)
+		if !ok {
+			return ""
+		}
+		// the struct pointer is an element loaded from a slice (range element)
+		base, ok := fa.X.(*ssa.UnOp)
+		if !ok {
+			return ""
+		}
+		if _, ok := base.X.(*ssa.IndexAddr); !ok {
+			return ""
+		}
+		if b, ok := u.Type().Underlying().(*types.Basic); !ok || b.Info()&types.IsInteger == 0 {
+			return ""
+		}
+		return fieldOf(fa).Name()
+	}
+	if f := isElemField(bo.X); f != "" {
+		if _, isC := bo.Y.(*ssa.Const); isC {
+			return f
+		}
+		if isElemField(bo.Y) != "" {
+			return f
+		}
+	}
+	if f := isElemField(bo.Y); f != "" {
+		if _, isC := bo.X.(*ssa.Const); isC {
+			return f
+		}
+	}
+	return ""
+}
+
+// leadsToErrorReturn: from b a return is reached, and on the way an error reply is produced.
+func leadsToErrorReturn(c *Ctx, b *ssa.BasicBlock) bool {
+	seen := map[*ssa.BasicBlock]bool{}
+	stack := []*ssa.BasicBlock{b}
+	for len(stack) > 0 {
+		x := stack[len(stack)-1]
+		stack = stack[:len(stack)-1]
+		if seen[x] {
+			continue
+		}
+		seen[x] = true
+		for _, in := range x.Instrs {
+			if mi, ok := in.(*ssa.MakeInterface); ok && c.isRespErr(mi.X.Type()) {
+				return true
+			}
+		}
+		stack = append(stack, x.Succs...)
+	}
+	return false
+}
+
+func decodesBinary(fn *ssa.Function) bool {
+	for _, in := range instrsOf(fn) {
+		if call, ok := in.(*ssa.Call); ok {
+			name := fullCalleeName(call)
+			if strings.Contains(name, "encoding/binary") && (strings.Contains(name, ".Uint") || strings.Contains(name, ".Read")) {
+				return true
+			}
 		}
 	}
 	return false
